@@ -39,6 +39,7 @@ type PropSpec struct {
 	regReports     []map[string]any
 	confirmed2     int
 	deadRets       []string
+	deadEdges      []string
 }
 
 // RegTest: a replay against the real code. expect "fail": a recorded known finding (the replay fails while the defect
@@ -446,7 +447,7 @@ func cmdCheck(args []string) {
 	}
 
 	// vacuity: assumptions of every unit must be satisfiable
-	var vacuous, noExit, deadRets []string
+	var vacuous, noExit, deadRets, deadEdges []string
 	{
 		var mu sync.Mutex
 		var wg sync.WaitGroup
@@ -468,6 +469,12 @@ func cmdCheck(args []string) {
 					if st := r.u.exitCover(work, 5*time.Second); st == "unsat" {
 						mu.Lock()
 						noExit = append(noExit, r.u.name)
+						mu.Unlock()
+					}
+					if *tier == "thorough" || os.Getenv("GOVC_DEADEDGES") != "" {
+						de := r.u.deadEdges(work, 3*time.Second)
+						mu.Lock()
+						deadEdges = append(deadEdges, de...)
 						mu.Unlock()
 					}
 					{
@@ -562,6 +569,26 @@ func cmdCheck(args []string) {
 		os.WriteFile(filepath.Join(*verif, "claims", "dead_returns.txt"), []byte("# returns unreachable under the assumptions of their unit on the unchanged tree (reviewed; see DESIGN 2.10)\n"+strings.Join(ks, "\n")+"\n"), 0o644)
 	}
 	spec.deadRets = deadRets
+	sort.Strings(deadEdges)
+	baseEdges := loadLines(filepath.Join(*verif, "claims", "dead_edges.txt"))
+	for _, d := range deadEdges {
+		if !baseEdges[strings.ReplaceAll(d, " ", "_")] {
+			fmt.Println("WARNING: branch never taken under the unit's assumptions, not in claims/dead_edges.txt:", d)
+		}
+	}
+	if *writeClaims && len(deadEdges) > 0 {
+		cur := loadLines(filepath.Join(*verif, "claims", "dead_edges.txt"))
+		for _, d := range deadEdges {
+			cur[strings.ReplaceAll(d, " ", "_")] = true
+		}
+		var ks []string
+		for k := range cur {
+			ks = append(ks, k)
+		}
+		sort.Strings(ks)
+		os.WriteFile(filepath.Join(*verif, "claims", "dead_edges.txt"), []byte("# conditional branches never taken under the assumptions of their unit on the unchanged tree (thorough tier; reviewed)\n"+strings.Join(ks, "\n")+"\n"), 0o644)
+	}
+	spec.deadEdges = deadEdges
 	sort.Strings(noExit)
 	for _, v := range noExit {
 		fmt.Printf("ERROR: no return of %s is reachable under its assumptions: its postconditions would be discharged vacuously\n", v)
@@ -747,6 +774,21 @@ func (u *Unit) exitCover(dir string, timeout time.Duration) string {
 	os.WriteFile(fn, []byte(q), 0o644)
 	r := runSolver(contextBackground(), solvers[0], fn, timeout)
 	return r.status
+}
+
+// deadEdges (thorough tier): conditional branches of the function that no input takes under the unit's assumptions
+func (u *Unit) deadEdges(dir string, timeout time.Duration) []string {
+	var out []string
+	for i, ep := range u.edgePcs {
+		o := &Obl{Name: fmt.Sprintf("%s#cover.edge%d", u.name, i), Cond: "true", Goal: not(ep[0])}
+		q := u.buildQuery(o, false)
+		fn := filepath.Join(dir, sanitize(o.Name)+".smt2")
+		os.WriteFile(fn, []byte(q), 0o644)
+		if runSolver(contextBackground(), solvers[0], fn, timeout).status == "unsat" {
+			out = append(out, ep[1])
+		}
+	}
+	return out
 }
 
 // deadReturns: returns of the function that no input reaches under the unit's assumptions
